@@ -1,2 +1,3 @@
-"""non-CBMC solver checks (direct SMT queries) attached to properties."""
-EXTRA = {}
+"""non-IR solver checks attached to properties (direct automaton / SMT queries)."""
+import c13
+EXTRA = {"C13": [c13.check]}
